@@ -162,6 +162,18 @@ def adjudicate(rng, block, ids):
     return b
 
 
+def vary_is_current(rng, s):
+    """the exports carry an `IsCurrent` flag on every block; the importer chooses between the blocks by the
+    `use_current` argument alone, so the flag may say anything (true, false, null) or be missing"""
+    for k in ("Original", "Modified"):
+        if k in s and rng.chance(0.35):
+            u = rng.random()
+            if u < 0.25:
+                s[k].pop("IsCurrent", None)
+            else:
+                s[k]["IsCurrent"] = rng.choice([False, False, None, True])
+
+
 def gen_record_id(rng, tab, batch):
     """returns (RecordId, ImageMask or None, expected record string or None when int('') must fail)"""
     n = rng.choice([rng.randint(0, 9), rng.randint(10, 99999), rng.randint(10 ** 5, 10 ** 7)])
@@ -212,6 +224,7 @@ def gen_session(rng, ids):
     elif u < 0.93:
         s["Modified"] = gen_block(rng, ids, layout, True)
     # else: neither
+    vary_is_current(rng, s)
     return _shuffled_dict(rng, s, 0.5), expect
 
 
